@@ -30,15 +30,24 @@ class RawResult(proto.Result):
     pass
 
 
-def raw_run(cfg, chunks, tag, eof=True, faults=None, leaks=False):
-    """Feed raw chunks (list of bytes).  faults: {chunk index: 'EAGAIN'|'EINTR'}.
+def raw_run(cfg, chunks, tag, eof=True, faults=None, leaks=False, prequeue=None):
+    """Feed raw chunks (list of bytes).  faults: {chunk index: 'EAGAIN'|'EINTR'}.  prequeue: bytes that are already
+    readable on the channel when the daemon makes the first pass of its event loop (their output comes with the
+    start-up output, which is then the first element of the list returned).
     Returns (list of per-chunk output bytes, Exit, hash, died_at)."""
     scratch = H.new_scratch(tag)
     conf = os.path.join(scratch, "iauthd.conf")
     with open(conf, "w", encoding="latin1") as f:
         f.write(render_cfg(cfg, scratch))
-    h = H.Host(conf, scratch, leaks=leaks)
+    env = None
+    if prequeue is not None:
+        with open(os.path.join(scratch, "prequeue.bin"), "wb") as f:
+            f.write(prequeue)
+        env = {"VERIF_PREQUEUE": os.path.join(scratch, "prequeue.bin")}
+    h = H.Host(conf, scratch, leaks=leaks, env=env)
     outs = []
+    if prequeue is not None and h.ready is not None:
+        outs.append(h.ready.out)
     died = None
     hang = False
     if h.ready is None:
@@ -64,6 +73,7 @@ def raw_run(cfg, chunks, tag, eof=True, faults=None, leaks=False):
     ex = h.finish(kill=hang)
     if hang:
         ex.signal = "hang"
+    ex.ready_out = h.ready.out if h.ready is not None else b""
     shutil.rmtree(scratch, ignore_errors=True)
     return outs, ex, h.digest(), died
 
@@ -340,6 +350,25 @@ class BytesProfile:
                         res.viol.append(Violation(("C10", "C08"), "in-use-differs-when-lines-share-a-read",
                                                   "the same history reports %s requests in use when delivered a line per read and %s when "
                                                   "several lines arrive in one read" % ([int(x) for x in ua][:12], [int(x) for x in ub][:12])))
+                if not res.viol and len(data) < 400000:
+                    # E: the same bytes are already waiting on the channel when the daemon enters its event loop
+                    # (the server queued them while the daemon was starting).  Where the start-up lines end up among
+                    # the answers is the daemon's business; everything else must be what a line per read gave.
+                    oe, exe, he, de = raw_run(cfg, [], tag + "e", prequeue=b"".join(l + b"\n" for l in S))
+                    hs.append(he)
+                    v = clean_exit_viol(exe, de, "run E (input waiting at start-up)")
+                    if v:
+                        res.viol.append(v)
+                    else:
+                        E = b"".join(oe).split(b"\n")
+                        for bl in exa.ready_out.split(b"\n"):
+                            if bl in E:
+                                E.remove(bl)
+                        if [x for x in E if x] != [x for x in A.split(b"\n") if x]:
+                            res.viol.append(Violation(("C08", "C02"), "queued-input-treated-differently",
+                                                      "the same lines are treated differently when they are already waiting on the channel "
+                                                      "at start-up: %s" % first_diff(A, b"\n".join(E))))
+                    res.extra["runs_with_input_waiting_at_startup"] = 1
                 res.extra["in_use_figures_compared"] = len(IN_USE_RE.findall(A))
                 res.extra.update({"segmented_runs": 1, "read_faults": len(faults), "reads": len(chunks)})
                 # C: junk interleaved, one line per read
